@@ -209,7 +209,7 @@ def lane_matrix(prop, tier, seed, jobs, params):
     n, strict, interesting = 0, 0, 0
     for line in so.splitlines():
         parts = line.split("|")
-        if len(parts) == 4 and parts[0] in ("OWNED", "KEY", "CLONE", "DEFAULT", "KEYSEND"):
+        if len(parts) == 4 and parts[0] in ("OWNED", "KEY", "CLONE", "DEFAULT", "KEYSEND", "INTOITER", "COPY"):
             kind, ty, expected, actual = parts
             n += 1
             expected, actual = expected == "true", actual == "true"
@@ -223,6 +223,8 @@ def lane_matrix(prop, tier, seed, jobs, params):
                     "CLONE": "%s implements Clone: a key / live hold can be duplicated in safe code",
                     "DEFAULT": "%s implements Default: a key / guard can be conjured up in safe code",
                     "KEYSEND": "%s is Send: a guard carrying the thread's key can be moved to another thread",
+                    "INTOITER": "%s implements IntoIterator by value: consuming it hands out its parts (per-lock holds) and drops the key it carries",
+                    "COPY": "%s implements Copy: a key / live hold can be duplicated in safe code",
                 }[kind] % ty
                 violations.append(dict(prop=prop, rule="marker_trait_too_permissive", detail=what,
                                        signature="%s:matrix:%s:%s" % (prop, kind, ty), case="corpus/C15_matrix/matrix.rs", index=n, log=[]))
